@@ -298,13 +298,15 @@ theorem mul_is_join (a b d : Table) (h : a.mul b = some (.ok d)) :
 /-! ## which keys survive, which values they carry: any number of inputs, any subset with defaults -/
 
 /-- **what `_item` keeps of a table input** keyed by all of `on` whose parameter name is not a key
-column: a rectangular table with exactly the key columns and the column `key`; it has the rows of
+column (and, like every dictable, distinct column names): a rectangular table with exactly the key
+columns and the column `key`; it has the rows of
 the input — same keys, and under `key` the input's value column (`valueCol`: the column named like
 the parameter, else `data`, else the only non-key column). -/
 theorem item_spec (d t : Table) (key : String) (on : List String) (hd : d.WF)
-    (hon : ∀ c ∈ on, c ∈ d.cols) (hkey : key ∉ on) (h : item d key on = .ok t) :
+    (hdn : d.cols.Nodup) (hon : ∀ c ∈ on, c ∈ d.cols) (hkey : key ∉ on)
+    (h : item d key on = .ok t) :
     KeyedSrc on t key ∧ RowsAgree on key t.R (inputRows on key d) :=
-  item_rows d t key on hd hon hkey h
+  item_rows d t key on hd hdn hon hkey h
 
 /-- what `join(inputs, on, defaults)` returns (`join_keys` proves it for any number of inputs) -/
 structure JoinSpec (inputs : List (String × PInput)) (on : List String)
@@ -332,7 +334,8 @@ structure JoinSpec (inputs : List (String × PInput)) (on : List String)
 
 /-- **join_keys — the n-ary `join` with defaults, for ANY number of inputs.**
 Inputs: a dict of scalars and tables (distinct names, none of them a key column), at least one
-table, every table rectangular and keyed by all of `on`; any `defaults`.  Whenever
+table, every table rectangular, with distinct column names (a python dict cannot hold a key twice)
+and keyed by all of `on`; any `defaults`.  Whenever
 `join(inputs, on, defaults)` returns a table `ds`:
 * `ds` is rectangular; its columns are the key columns and one column per input;
 * **keys**: a key is present in `ds` iff it is present in every table input that has no default —
@@ -345,7 +348,7 @@ table, every table rectangular and keyed by all of `on`; any `defaults`.  Whenev
 theorem join_keys (inputs : List (String × PInput)) (on : List String)
     (defaults : List (String × Cell)) (ds : Table)
     (hon : on ≠ []) (hnames : (inputs.map (·.1)).Nodup) (hoff : ∀ kv ∈ inputs, kv.1 ∉ on)
-    (htab : ∀ kv ∈ tableInputs inputs, kv.2.WF ∧ ∀ c ∈ on, c ∈ kv.2.cols)
+    (htab : ∀ kv ∈ tableInputs inputs, kv.2.WF ∧ kv.2.cols.Nodup ∧ ∀ c ∈ on, c ∈ kv.2.cols)
     (hany : tableInputs inputs ≠ [])
     (h : pdJoin inputs on defaults = some (.ok ds)) : JoinSpec inputs on defaults ds := by
   obtain ⟨seq, hseq⟩ := pdJoin_stage h
@@ -363,7 +366,7 @@ theorem join_keys (inputs : List (String × PInput)) (on : List String)
   -- the tables after `_item`
   have hit : ∀ a ∈ tableInputs inputs, KeyedSrc on (itemD a.2 a.1 on) a.1 ∧
       RowsAgree on a.1 (itemD a.2 a.1 on).R (inputRows on a.1 a.2) := fun a ha =>
-    item_rows a.2 _ a.1 on (htab a ha).1 (htab a ha).2 (hToff a ha) (i3 a ha)
+    item_rows a.2 _ a.1 on (htab a ha).1 (htab a ha).2.1 (htab a ha).2.2 (hToff a ha) (i3 a ha)
   generalize hts : (tableInputs inputs).map (fun a => (a.1, itemD a.2 a.1 on)) = ts at h
   have hmem : ∀ b ∈ ts, ∃ a ∈ tableInputs inputs, b = (a.1, itemD a.2 a.1 on) := by
     intro b hb
@@ -537,16 +540,13 @@ theorem join_returns (inputs : List (String × PInput)) (on : List String)
   have hks : ∀ b ∈ ts, KeyedSrc on b.2 b.1 := by
     intro b hb
     obtain ⟨a, ha, rfl⟩ := hmem b hb
-    exact (item_rows a.2 _ a.1 on (htab a ha).1 (htab a ha).2.2 (hToff a ha) (i3 a ha)).1
-  have hos : ∀ b ∈ ts, OnNodup on b.2 := by
-    intro b hb
-    obtain ⟨a, ha, rfl⟩ := hmem b hb
-    exact item_onNodup a.2 _ a.1 on (htab a ha).2.1 (hToff a ha) (i3 a ha)
+    exact (item_rows a.2 _ a.1 on (htab a ha).1 (htab a ha).2.1 (htab a ha).2.2 (hToff a ha)
+      (i3 a ha)).1
   have hnd : (ts.map (·.1)).Nodup := by
     rw [← hts, List.map_map]
     exact hnames.sublist (tableInputs_names inputs)
   obtain ⟨d, hd⟩ := joinTables_total on hon ts
-    (defaults.filter fun kv => (inputs.map (·.1)).contains kv.1) hne hks hos hnd
+    (defaults.filter fun kv => (inputs.map (·.1)).contains kv.1) hne hks hnd
   obtain ⟨dw, dc, _⟩ := joinTables_sem on hon ts _ d hks hnd hd
   obtain ⟨ds, hds⟩ := finish_total on hon d (scalarInputs inputs) dw
     (fun c hc => (dc c).2 (.inl hc))
@@ -556,7 +556,8 @@ theorem join_returns (inputs : List (String × PInput)) (on : List String)
 
 /-- **The property, end to end.**  A function lifted with `perdictable(f, on = keys)` is called with
 keyword arguments `inputs` (distinct names, none of them a key column or `expiry`), at least one of
-them — or `expiry` — a table, every table rectangular and keyed by all of `on`; `defaults`
+them — or `expiry` — a table, every table rectangular with distinct column names and keyed by all of
+`on`; `defaults`
 arbitrary (`data` and `expiry` always get the default `None`).  Whenever the call returns, there is a
 joined table `ds` such that
 * `ds = join(inputs + expiry, on, defaults)` and `ds` satisfies `JoinSpec` (`join_keys`): **one row
@@ -574,7 +575,8 @@ theorem perdictable_end_to_end (f : List Cell → Val) (params on : List String)
     (today : Int) (res : PResult × List (List Cell))
     (hon : on ≠ []) (hnames : ((inputs ++ [("expiry", expiry)]).map (·.1)).Nodup)
     (hoff : ∀ kv ∈ inputs ++ [("expiry", expiry)], kv.1 ∉ on)
-    (htab : ∀ kv ∈ tableInputs (inputs ++ [("expiry", expiry)]), kv.2.WF ∧ ∀ c ∈ on, c ∈ kv.2.cols)
+    (htab : ∀ kv ∈ tableInputs (inputs ++ [("expiry", expiry)]),
+      kv.2.WF ∧ kv.2.cols.Nodup ∧ ∀ c ∈ on, c ∈ kv.2.cols)
     (hany : tableInputs (inputs ++ [("expiry", expiry)]) ≠ [])
     (ifNone : Bool)
     (h : perdictable f params on defaults inputs expiry today ifNone = some (.ok res)) :
@@ -636,8 +638,7 @@ theorem perdictable_returns (f : List Cell → Val) (params on : List String)
     (defaults ++ (if (defaults.map (·.1)).contains "data" then [] else [("data", Cell.none)]) ++
       (if (defaults.map (·.1)).contains "expiry" then [] else [("expiry", Cell.none)]))
     hon hnames hoff htab hany hitem
-  have hs := join_keys _ on _ ds hon hnames hoff
-    (fun kv hkv => ⟨(htab kv hkv).1, (htab kv hkv).2.2⟩) hany hj
+  have hs := join_keys _ on _ ds hon hnames hoff htab hany hj
   by_cases hn : ds.nrows = 0
   · exact ⟨_, no_rows f params on defaults inputs expiry today ds hj hn ifNone⟩
   · have ht : (inputs ++ [("expiry", expiry)]).any (fun kv => kv.2.isTable) = true := by
@@ -678,7 +679,7 @@ the renaming assignments (`rename_spec`), hence satisfies `JoinSpec` (`join_keys
 theorem join_keys_renames (inputs : List (String × PInput)) (on : List String)
     (renames : List (String × String)) (defaults : List (String × Cell)) (ds : Table)
     (hon : on ≠ []) (hnames : (inputs.map (·.1)).Nodup) (hoff : ∀ kv ∈ inputs, kv.1 ∉ on)
-    (htab : ∀ kv ∈ tableInputs inputs, kv.2.WF ∧ ∀ c ∈ on, c ∈ kv.2.cols)
+    (htab : ∀ kv ∈ tableInputs inputs, kv.2.WF ∧ kv.2.cols.Nodup ∧ ∀ c ∈ on, c ∈ kv.2.cols)
     (hany : tableInputs inputs ≠ [])
     (h : pdJoinR inputs on renames defaults = some (.ok ds)) :
     (∀ a ∈ tableInputs inputs, applyRename a.2 a.1 renames = .ok (renamedT a.2 a.1 renames)) ∧
@@ -697,8 +698,8 @@ theorem join_keys_renames (inputs : List (String × PInput)) (on : List String)
     · intro kv hkv
       rw [tableInputs_renamed] at hkv
       obtain ⟨a, ha, rfl⟩ := List.mem_map.1 hkv
-      obtain ⟨h1, _, h3, _⟩ := applyRename_sem a.2 _ a.1 renames (htab a ha).1 (i2 a ha)
-      exact ⟨h1, fun c hc => (h3 c).2 (.inl ((htab a ha).2 c hc))⟩
+      obtain ⟨h1, _, h3, h4, _⟩ := applyRename_sem a.2 _ a.1 renames (htab a ha).1 (i2 a ha)
+      exact ⟨h1, h4 (htab a ha).2.1, fun c hc => (h3 c).2 (.inl ((htab a ha).2.2 c hc))⟩
     · rw [tableInputs_renamed]
       cases hT : tableInputs inputs with
       | nil => exact absurd hT hany
